@@ -642,6 +642,42 @@ fn real_sig(n: &Node) -> String {
     in_thread(move || format!("{:?}", n.sig())).unwrap_or_default()
 }
 
+/// what compiling `src` in Lsp pre-evaluation mode leaves in the assembly (and the error), on a given backend
+fn lsp_compile(src: &str, native: bool) -> String {
+    catch(|| {
+        let mut comp = if native { Compiler::with_backend(uiua::NativeSys) } else { Compiler::with_backend(SafeSys::default()) };
+        comp.print_diagnostics(false);
+        comp.pre_eval_mode(PreEvalMode::Lsp);
+        let r = comp.load_str(src).map(|_| ());
+        let mut out = String::new();
+        if let Err(e) = r {
+            describe_error(&e, &mut out);
+        }
+        let asm = comp.finish();
+        format!("{out} root={:?}", asm.root)
+    })
+    .unwrap_or_else(|p| format!("PANIC[{p}]"))
+}
+
+/// (the denying backend's result after the native backend compiled the same text in this thread,
+///  the denying backend's result in a fresh thread)
+fn lsp_pair(src: &str) -> (String, String) {
+    lsp_pair_with(src, 0)
+}
+
+fn lsp_pair_with(src: &str, bypass: u32) -> (String, String) {
+    let s1 = src.to_string();
+    let s2 = src.to_string();
+    let a = in_thread(move || {
+        hooks::set_bypass(bypass);
+        let _ = lsp_compile(&s1, true);
+        lsp_compile(&s1, false)
+    })
+    .unwrap_or_default();
+    let b = in_thread(move || lsp_compile(&s2, false)).unwrap_or_default();
+    (a, b)
+}
+
 fn main() {
     let args: Vec<String> = std::env::args().skip(1).collect();
     let mode = args.first().cloned().unwrap_or_default();
@@ -663,6 +699,13 @@ fn main() {
                     println!("DIFF {} [cache:{}/{}]\n   hist : {}\n   fresh: {}", jstr(p), cache, diff_kind(&o, &f), o, f);
                 }
             }
+        }
+        "lsp" => {
+            // c12 lsp SRC : compile SRC in Lsp pre-evaluation mode with the native backend and then with the
+            // denying backend in ONE thread; compare the second with the denying backend in a fresh thread
+            let src = args[1].replace("\\n", "\n");
+            let (a, b) = lsp_pair(&src);
+            println!("{} {}\n   native, then safe (one thread): {}\n   safe (fresh thread)            : {}", if a == b { "same" } else { "DIFF" }, jstr(&src), a, b);
         }
         "tree" => {
             for a in &args[1..] {
@@ -693,7 +736,7 @@ fn main() {
                 &["Y ← 7\nX ← 5\nD ← +\nF ← √\nY ← 7\n≡(¯/D⇌) [3_4 1_2]\n", "F ← √\nX ← 5\nD ← +\n≡(¯/D⇌) [1_2 3_5]\n"],
                 &["F ← ⊂1\nX ← 5\n⍜⊙F(⊂3) X [2 2]", "X ← 5\nF ← ⊂1\n⍜⊙F(⊂3) X [2 2]"],
                 &["F ← ⊢\nX ← 5\n≡(F⇌) ↯2_0 0", "X ← 5\nF ← ⊢\n≡(F⇌) ↯2_0 0"],
-                // still open: the spans-table length baked by the "match a constant exactly" inverse
+                // the spans-table length baked by the "match a constant exactly" inverse (repaired by 868269f)
                 &["F ← ⊙5\n°F 1 6", "F ← ⊙5\nX ← 1\nY ← 2\n°F 1 6"],
                 &["F ← ⊙5\nX ← 1\nY ← 2\nZ ← 3\n°F 1 6", "F ← ⊙5\n°F 1 6"],
                 // still open: the purity cache
@@ -761,6 +804,30 @@ fn main() {
                 };
                 let progs = if r.chance(1, 2) { vec![e, p] } else { vec![p, e] };
                 s.run_history(fam, &progs);
+            }
+            // (3b) Lsp pre-evaluation: the same text compiled on the native backend and then on the denying
+            //      backend in one thread, against the denying backend in a fresh thread
+            for src in ["&var \"PATH\"", "&fe \"/etc/passwd\"", "os", "+1 2", "⧻&fras \"/etc/hostname\"", "F ← &var \"PATH\"\nF"] {
+                let (a, b) = lsp_pair(src);
+                s.evals += 3;
+                s.compared += 1;
+                s.fam.entry("lsp-backends").or_insert((0, 0)).0 += 1;
+                if a != b {
+                    let (a2, _) = lsp_pair_with(src, hooks::PRE_EVAL);
+                    let key = if a2 == b { "cache:pre-eval/lsp-backend" } else { "other-state/lsp-backend" };
+                    *s.viol.entry(key.to_string()).or_insert(0) += 1;
+                    s.fam.get_mut("lsp-backends").unwrap().1 += 1;
+                    if s.viol[key] <= 2 {
+                        println!(
+                            "{{\"violation\":{},\"family\":\"lsp-backends\",\"history\":{},\"program\":{},\"hist\":{},\"fresh\":{}}}",
+                            jstr(key),
+                            jarr(&[format!("[Lsp mode, native backend] {src}"), format!("[Lsp mode, denying backend] {src}")]),
+                            jstr(src),
+                            jstr(&a.chars().take(160).collect::<String>()),
+                            jstr(&b)
+                        );
+                    }
+                }
             }
             // (4) the same program on 8 threads at once
             let mut thread_cases = 0;
